@@ -123,6 +123,20 @@ func VerifC03PhaseObjects() {
 		verifrt.Assert(len(real) == 0, "C09/paused-writes-nothing")
 		verifrt.Reach("paused")
 	}
+	// C06: status.controllerOf is computed from the objects this pass returned (as objectSetPhasesReconciler does, with
+	// the real GetControllerOf); every entry must be an object that was on the cluster in this pass
+	strategy := vStrategy(vStrategyNative, vScheme())
+	ctrlOf, cerr := GetControllerOf(context.Background(), vScheme(), strategy, owner.ClientObject(), actual)
+	verifrt.Assert(cerr == nil, "C06/controllerOf-computable")
+	for _, c := range ctrlOf {
+		seen := false
+		for k := 0; k < n; k++ {
+			if names[k] == c.Name && (present[k] || !paused) {
+				seen = true
+			}
+		}
+		verifrt.Assert(seen, "C06/controllerOf-only-objects-seen-in-this-pass")
+	}
 	// C03: result clean iff every object present (or just created) and probe ok; paused + missing => failure, not probed
 	wantClean := true
 	wantAsked := 0
